@@ -138,9 +138,10 @@ type GhostVar struct {
 }
 
 type LoopSpec struct {
-	Ord    int
-	Invs   []*Clause
-	Ghosts []*GhostVar
+	Ord      int
+	Invs     []*Clause
+	Ghosts   []*GhostVar
+	Isolated bool
 }
 
 type LemmaStep struct {
@@ -155,36 +156,38 @@ type LemmaStep struct {
 }
 
 type Contract struct {
-	Kind      string // func method extern-func extern-method lemma
-	Pkg       string // package path (for func/method), filled by loader
-	PkgName   string
-	Recv      *TypeExpr
-	Name      string
-	Params    []Param // lemma / extern / spec func params
-	Results   []Param
-	Props     []string
-	Requires  []*Clause
-	Ensures   []*Clause
-	Maintains []string  // global invariants re-established on exit
-	MaintainsScope map[string][]string // optional property scope of a maintains clause
-	Reveal    []string  // opaque spec functions whose definition is used here
-	Conceal   []string  // spec functions whose definition is NOT used in this contract\'s queries
-	InlineLoops map[string]map[int]*LoopSpec // invariants supplied by this contract for loops of inlined callees ("loop callee.N: ...")
-	Uses      []string  // pure lemmas (proved separately) whose statements are assumed here
-	PureCalls bool      // every call through a function value in this function is pure and deterministic
-	PureFns   []string  // function-typed parameters whose calls are pure and deterministic (T6)
-	Defines   *Expr     // result of this pure, deterministic function is denoted by this spec application
-	MayPanic  []*Clause // E may be nil (unconditional)
-	Assigns   []string
-	Loops     map[int]*LoopSpec
-	Inline    bool
-	Trusted   string
-	Pure      bool
-	Steps     []*LemmaStep
-	Level     *LevelSpec
-	NoBody    bool // do not verify body (extern/trusted)
-	File      string
-	Line      int
+	Kind           string // func method extern-func extern-method lemma
+	Pkg            string // package path (for func/method), filled by loader
+	PkgName        string
+	Recv           *TypeExpr
+	Name           string
+	Params         []Param // lemma / extern / spec func params
+	Results        []Param
+	Props          []string
+	Requires       []*Clause
+	Ensures        []*Clause
+	Maintains      []string                     // global invariants re-established on exit
+	MaintainsScope map[string][]string          // optional property scope of a maintains clause
+	Reveal         []string                     // opaque spec functions whose definition is used here
+	GroundUnfold   []string
+	Conceal        []string                     // spec functions whose definition is NOT used in this contract\'s queries
+	Callbacks      map[string]*LoopSpec         // invariants over captured variables across calls that take a closure ("callback callee: invariant E")
+	InlineLoops    map[string]map[int]*LoopSpec // invariants supplied by this contract for loops of inlined callees ("loop callee.N: ...")
+	Uses           []string                     // pure lemmas (proved separately) whose statements are assumed here
+	PureCalls      bool                         // every call through a function value in this function is pure and deterministic
+	PureFns        []string                     // function-typed parameters whose calls are pure and deterministic (T6)
+	Defines        *Expr                        // result of this pure, deterministic function is denoted by this spec application
+	MayPanic       []*Clause                    // E may be nil (unconditional)
+	Assigns        []string
+	Loops          map[int]*LoopSpec
+	Inline         bool
+	Trusted        string
+	Pure           bool
+	Steps          []*LemmaStep
+	Level          *LevelSpec
+	NoBody         bool // do not verify body (extern/trusted)
+	File           string
+	Line           int
 }
 
 type LevelSpec struct {
@@ -970,7 +973,7 @@ var clauseKeywords = map[string]bool{
 	"maypanic": true, "assigns": true, "loop": true, "inline": true, "trusted": true,
 	"pure": true, "type": true, "spec": true, "unfold": true, "axiom": true, "extern": true,
 	"iface": true, "lemma": true, "let": true, "assert": true, "assume": true, "level": true,
-	"package": true, "nobody": true, "call": true, "defines": true, "global": true, "maintains": true, "purefn": true, "purecalls": true, "import": true, "opaque": true, "reveal": true, "uses": true, "conceal": true,
+	"package": true, "nobody": true, "call": true, "defines": true, "global": true, "maintains": true, "purefn": true, "purecalls": true, "import": true, "callback": true, "groundunfold": true, "opaque": true, "reveal": true, "uses": true, "conceal": true,
 }
 
 type rawClause struct {
@@ -1154,6 +1157,13 @@ func ParseSpecText(text, path string, goFile bool) (*SpecFile, error) {
 					}
 				}
 			}
+		case "groundunfold":
+			// spec functions whose definition is instantiated on ground terms only (no quantified
+			// definitional axiom: avoids matching loops for recursion on an integer argument)
+			if cur == nil {
+				return nil, fmt.Errorf("%s:%d: groundunfold outside contract", path, rc.line)
+			}
+			cur.GroundUnfold = append(cur.GroundUnfold, strings.Fields(rc.text)...)
 		case "conceal":
 			if cur == nil {
 				return nil, fmt.Errorf("%s:%d: conceal outside contract", path, rc.line)
@@ -1229,6 +1239,42 @@ func ParseSpecText(text, path string, goFile bool) (*SpecFile, error) {
 				}
 			}
 			cur.Level = ls
+		case "callback":
+			// callback callee: invariant E   (continuation lines: invariant E)
+			txt := rc.text
+			j := strings.Index(txt, ":")
+			if j < 0 || cur == nil {
+				return nil, fmt.Errorf("%s:%d: callback clause needs 'callback callee: invariant E'", path, rc.line)
+			}
+			cname := strings.TrimSpace(txt[:j])
+			if cur.Callbacks == nil {
+				cur.Callbacks = map[string]*LoopSpec{}
+			}
+			ls := cur.Callbacks[cname]
+			if ls == nil {
+				ls = &LoopSpec{}
+				cur.Callbacks[cname] = ls
+			}
+			for _, p := range splitLoopParts(strings.TrimSpace(txt[j+1:])) {
+				if !strings.HasPrefix(p, "invariant") {
+					return nil, fmt.Errorf("%s:%d: bad callback clause %q", path, rc.line, p)
+				}
+				et := strings.TrimSpace(strings.TrimPrefix(p, "invariant"))
+				var scope []string
+				if strings.HasPrefix(et, "[") {
+					if k := strings.Index(et, "]"); k > 0 {
+						for _, pp := range strings.Split(et[1:k], ",") {
+							scope = append(scope, strings.TrimSpace(pp))
+						}
+						et = strings.TrimSpace(et[k+1:])
+					}
+				}
+				e, err := parseExprString(et, path, rc.line)
+				if err != nil {
+					return nil, err
+				}
+				ls.Invs = append(ls.Invs, &Clause{Kind: "invariant", E: e, Text: strings.Join(strings.Fields(et), " "), Ord: len(ls.Invs) + 1, Line: rc.line, File: path, Props: scope})
+			}
 		case "loop":
 			// loop N: invariant E | loop N: ghost k int = E step E
 			txt := rc.text
@@ -1287,6 +1333,10 @@ func ParseSpecText(text, path string, goFile bool) (*SpecFile, error) {
 						return nil, err
 					}
 					ls.Invs = append(ls.Invs, &Clause{Kind: "invariant", E: e, Text: strings.Join(strings.Fields(et), " "), Ord: len(ls.Invs) + 1, Line: rc.line, File: path, Props: scope})
+				case p == "isolated":
+					// the loop body is verified once, from the invariants alone (branch
+					// decisions taken before the loop are not assumed)
+					ls.Isolated = true
 				case strings.HasPrefix(p, "ghost"):
 					g, err := parseGhost(strings.TrimSpace(strings.TrimPrefix(p, "ghost")), path, rc.line)
 					if err != nil {
@@ -1430,7 +1480,7 @@ func splitLoopParts(s string) []string {
 	var parts []string
 	for _, ln := range strings.Split(s, "\n") {
 		t := strings.TrimSpace(ln)
-		if strings.HasPrefix(t, "invariant") || strings.HasPrefix(t, "ghost") || len(parts) == 0 {
+		if strings.HasPrefix(t, "invariant") || strings.HasPrefix(t, "ghost") || t == "isolated" || len(parts) == 0 {
 			parts = append(parts, t)
 		} else {
 			parts[len(parts)-1] += " " + t
